@@ -461,7 +461,10 @@ func runC15(ctx *core.Ctx) {
 			k++
 			facts := mg.FactsAtInstr(c)
 			data := c.Call.Args[0]
-			guard := hasFact(facts, false, isCallOf([]string{"bytes.HasSuffix"}, isVal(data), nil)) && cmpFact(facts, token.GTR, isLenOf(data), isConstIntV(0))
+			// "lacks a final newline": HasSuffix(data, "\n") false, or the last byte compared unequal to it
+			lacks := hasFact(facts, false, isCallOf([]string{"bytes.HasSuffix"}, isVal(data), nil)) ||
+				cmpFact(facts, token.NEQ, isElemLoad(data, isLenMinus(data, 1)), isConstIntV('\n'))
+			guard := lacks && cmpFact(facts, token.GTR, isLenOf(data), isConstIntV(0))
 			ctx.Check(guard, "X5", "txtar-c.main$1#newline", c.Pos(), "newline appended only when data is non-empty and lacks one")
 		})
 		if k == 0 {
